@@ -57,9 +57,51 @@ class IllFormed(Exception):
     not a well-formed graph function by the rule of DESIGN.md C01."""
 
 
+LANE_OPS = ('neg', 'add', 'sub', 'mul', 'div', 'madd')
+
+
+def flatten_lanes(prog):
+    """A program with 'lanes': [map0, map1, ...] is written over lane-generic
+    leaves; in the real build every leaf X is the channel list [map0[X],
+    map1[X], ...] and every statement multichannel-expands.  Its meaning is
+    that of the scalar program which runs the statements once per lane (leaf
+    names mapped, value references shifted) and groups the lanes of each
+    output value into one output unit."""
+    lanes = prog['lanes']
+    n = len(prog['stmts'])
+    flat = []
+    for j, m in enumerate(lanes):
+        for st in prog['stmts']:
+            if st[0] not in LANE_OPS:
+                raise IllFormed(f'{st[0]} is not used in lane programs')
+            row = [st[0]]
+            for a in st[1:]:
+                if is_val(a):
+                    row.append(f'v{int(a[1:]) + j * n}')
+                elif is_const(a):
+                    row.append(a)
+                else:
+                    row.append(m.get(a, a))
+            flat.append(row)
+    o = prog['outs']
+    if o == 'last':
+        vs = [n - 1]
+    elif o == 'each':
+        vs = list(range(n))
+    else:
+        raise IllFormed(f'outs {o} with lanes')
+    groups = [[i + j * n for j in range(len(lanes))] for i in vs]
+    return {'stmts': flat, 'outs': 'groups', 'groups': groups,
+            'tagbase': prog.get('tagbase', 100)}
+
+
 def interpret(prog):
     """-> dict(vals=[poly], rank=[max rate rank of atoms], outs=[(rate, bus,
     [poly])], leaves=set used, lpf={k: input poly}, nontrivial=bool)."""
+    if prog.get('lanes'):
+        r = interpret(flatten_lanes(prog))
+        r['nontrivial'] = True      # every statement expands over the lanes
+        return r
     vals = []
     audio = []       # value certainly audio rate (normal form has audio atom)
     leaves = []
@@ -155,6 +197,8 @@ def interpret(prog):
         groups = [[n - 1], [n - 1]]
     elif o == 'none':
         groups = []
+    elif o == 'groups':
+        groups = prog['groups']
     else:
         raise IllFormed(f'outs {o}')
     outs = []
@@ -208,6 +252,10 @@ def make_function(prog):
             if a in LEAVES:
                 used.add(a)
 
+    lanes = prog.get('lanes')
+    if lanes:
+        used = {m.get(a, a) for m in lanes for a in used}
+
     def body(params):
         from sc3.synth.ugens import oscillators, noise, line, filter, inout
         from sc3.synth.ugen import ChannelList
@@ -219,6 +267,11 @@ def make_function(prog):
                 return a
             if is_val(a):
                 return vals[int(a[1:])]
+            if lanes:
+                return ChannelList([leaf(m.get(a, a)) for m in lanes])
+            return leaf(a)
+
+        def leaf(a):
             if a not in env:
                 t = tag_of(prog, a)
                 if a in ('A', 'B'):
@@ -264,6 +317,8 @@ def make_function(prog):
         for (rate, _), g in zip(ref_outs, groups):
             chans = [vals[i] for i in g]
             arg = chans[0] if len(chans) == 1 else chans
+            if lanes:
+                arg = vals[g[0] % n]    # one channel list: a channel per lane
             if rate == 2:
                 inout.Out.ar(0, arg)
             else:
